@@ -4,6 +4,7 @@
 mod common;
 mod prim;
 mod pipeline;
+mod c04;
 mod c05;
 mod c11;
 mod corpus;
@@ -28,6 +29,7 @@ fn main() {
     }
     common::install_panic_hook();
     let code = common::with_big_stack(move || match cmd.as_str() {
+        | "c04" => c04::run(&opts),
         | "c05" => c05::run(&opts),
         | "c11" => c11::run(&opts),
         | other => {
